@@ -54,7 +54,7 @@ func rejectedLossCalls(kind string, compute func(p, t tensor.Tensor) (tensor.Ten
 		lv[i] = 0.25
 	}
 	wrongRank := lib.MustNew(append([]int{1}, ps...), make([]float64, ref.Prod(ps)), false)
-	for _, bad := range []struct {
+	bads := []struct {
 		what string
 		p, t tensor.Tensor
 	}{
@@ -65,7 +65,12 @@ func rejectedLossCalls(kind string, compute func(p, t tensor.Tensor) (tensor.Ten
 		{"wrong rank", wrongRank, tg},
 		{"more predictions than targets", lib.MustNew(longer, lv, false), tg},
 		{"nil prediction", nil, tg},
-	} {
+	}
+	// the order is rotated by the batch size, so that over many cases every invalid call is
+	// at some point the last one before the valid call
+	rot := ps[0] % len(bads)
+	for i := range bads {
+		bad := bads[(i+rot)%len(bads)]
 		l, err := compute(bad.p, bad.t)
 		if err == nil || l != nil {
 			return failf("%s.Compute accepted an invalid call (%s)", kind, bad.what)
